@@ -33,6 +33,8 @@ struct Fmt {
     cost_gbp: String,
     hold_k: i64,
     hold_avg_gbp: String,
+    unit_k: i64,
+    s104_unit_gbp: String,
 }
 
 #[derive(Debug, Clone, Deserialize)]
@@ -166,13 +168,21 @@ fn year_for(v: &Fmt, y: u16) -> Option<TaxYearSummary> {
     let cost = milli(COST);
     let d1 = NaiveDate::from_ymd_opt(y as i32, 6, 1)?;
     let d2 = NaiveDate::from_ymd_opt(y as i32, 7, 2)?;
-    let disp = |date, ticker: &str, result: Decimal| Disposal {
+    // three legs: same day (1 share), 30-day (1 share, bought 9 June), pool (2 shares whose cost per share is
+    // 1,250,000 + unit_k/1000); the legs' costs add up to `cost`, their gains to `result`
+    let quarter = cost / Decimal::from(4);
+    let x = milli(2 * v.unit_k);
+    let disp = |date: NaiveDate, ticker: &str, result: Decimal| Disposal {
         date,
         ticker: ticker.into(),
         quantity: Decimal::from(4),
         gross_proceeds: cost + result + Decimal::new(10, 2),
         proceeds: cost + result,
-        matches: vec![Match { rule: MatchRule::Section104, quantity: Decimal::from(4), allowable_cost: cost, gain_or_loss: result, acquisition_date: None }],
+        matches: vec![
+            Match { rule: MatchRule::SameDay, quantity: Decimal::ONE, allowable_cost: quarter - x, gain_or_loss: Decimal::ZERO, acquisition_date: Some(date) },
+            Match { rule: MatchRule::BedAndBreakfast, quantity: Decimal::ONE, allowable_cost: quarter, gain_or_loss: Decimal::ZERO, acquisition_date: date.checked_add_days(chrono::Days::new(8)) },
+            Match { rule: MatchRule::Section104, quantity: Decimal::from(2), allowable_cost: quarter + quarter + x, gain_or_loss: result, acquisition_date: None },
+        ],
     };
     let (g, l) = if v.k > 0 { (k, loss) } else { (Decimal::ZERO, loss - k) };
     Some(TaxYearSummary {
@@ -311,6 +321,16 @@ fn main() {
             let np = first.iter().find(|l| l.trim_start().starts_with("Net Proceeds:")).map(|l| l.trim()).unwrap_or("");
             let want_np = vec![pound(&v.d1_gross_gbp), pound(&v.fee_gbp), pound(&v.d1_net_gbp)];
             if money_tokens(np) != want_np { bad.push(format!("text net proceeds line {np:?}, expected the figures {want_np:?}")); }
+            // the legs: rule, quantity, acquisition date, and the pool leg's cost per share (by value: the text report drops trailing zeros)
+            let yy = y.period.start_year();
+            for want in [format!("Same Day: 1 shares"), format!("B&B: 1 shares from 09/06/{yy}")] {
+                if !first.iter().any(|l| l.trim() == want) { bad.push(format!("text report lacks the leg line {want:?}")); }
+            }
+            let pl = first.iter().find(|l| l.trim_start().starts_with("Section 104: 2 shares @ ")).map(|l| l.trim()).unwrap_or("");
+            let val = |t: &str| Decimal::from_str(&t.replace(['£', ','], "")).ok();
+            if money_tokens(pl).first().and_then(|t| val(t)).is_none() || money_tokens(pl).first().and_then(|t| val(t)) != val(&pound(&v.s104_unit_gbp)) {
+                bad.push(format!("text pool leg line {pl:?}, expected a cost per share of {}", pound(&v.s104_unit_gbp)));
+            }
             let cl = first.iter().find(|l| l.trim_start().starts_with("Cost:")).map(|l| l.trim()).unwrap_or("");
             if cl != format!("Cost: {}", pound(&v.cost_gbp)) { bad.push(format!("text cost line {cl:?}, expected Cost: {}", pound(&v.cost_gbp))); }
             {
@@ -332,7 +352,10 @@ fn main() {
                 match got { Some(g) if g == as_pence(pence) || g == full => {}, other => bad.push(format!("JSON {name} = {:?}, expected {} (or the full value {full})", other, as_pence(pence))) }
             };
             check("net_gain", num(&jy["net_gain"]), v.net_pence, milli(v.net_k), &mut bad);
-            check("disposal gain_or_loss", num(&jy["disposals"][0]["matches"][0]["gain_or_loss"]), v.pence, milli(v.k), &mut bad);
+            check("disposal gain_or_loss", num(&jy["disposals"][0]["matches"][2]["gain_or_loss"]), v.pence, milli(v.k), &mut bad);
+            for (li, q) in [(0usize, "1"), (1, "1"), (2, "2")] {
+                if jy["disposals"][0]["matches"][li]["quantity"].as_str().and_then(|s| Decimal::from_str(s).ok()) != Decimal::from_str(q).ok() { bad.push(format!("JSON leg {li} quantity {}", jy["disposals"][0]["matches"][li]["quantity"])); }
+            }
             if jy["period"].as_str() != Some(label.as_str()) { bad.push(format!("JSON period {:?} vs text {label}", jy["period"])); }
             // ---- PDF
             if let Some(pt) = &pdf_text {
@@ -368,6 +391,14 @@ fn main() {
                         let head = format!("{} {}", if v.k >= 0 { "GAIN" } else { "LOSS" }, pound(&v.gbp_abs));
                         if sect.iter().find(|r| r.starts_with("GAIN ") || r.starts_with("LOSS ")).copied() != Some(head.as_str()) {
                             bad.push(format!("PDF disposal heading {:?}, expected {head:?}", sect.iter().find(|r| r.starts_with("GAIN ") || r.starts_with("LOSS "))));
+                        }
+                        let yy = y.period.start_year();
+                        let first_disp: Vec<&str> = sect.iter().take_while(|r| !r.starts_with("2. ")).copied().collect();
+                        for want in ["Same Day: 1 shares".to_string(), format!("B&B: 1 shares from 09/06/{yy}"), format!("Section 104: 2 shares @ {}", pound(&v.s104_unit_gbp))] {
+                            // (the list bullet "-" in front of a leg line is glued to it like a minus sign by the run joiner above)
+                            if !first_disp.iter().any(|r| r.trim_start_matches('-') == want) {
+                                bad.push(format!("PDF lacks the leg line {want:?} (has {:?})", first_disp.iter().map(|r| r.trim_start_matches('-')).filter(|r| r.starts_with("Same Day") || r.starts_with("B&B") || r.starts_with("Section 104")).collect::<Vec<_>>()));
+                            }
                         }
                         let after = |lab: &str| sect.iter().position(|r| *r == lab).and_then(|i| sect.get(i + 1)).copied().unwrap_or("");
                         if !after("Gross Proceeds:").ends_with(&format!("= {}", pound(&v.d1_gross_gbp))) { bad.push(format!("PDF gross proceeds {:?}, expected ... = {}", after("Gross Proceeds:"), pound(&v.d1_gross_gbp))); }
